@@ -504,6 +504,22 @@ def C16(run):
             ncorr += 1; firstc = firstc or (t, c, m)
     if not ok_tab:
         ncorr += 1; firstc = firstc or ('unicode tables', tabs[1], tabs[0])
+    # the constructor on its own (Props/C16Ctor.lean: every_rule_constructs, unknown_rule_is_refused): each rule name, and one unknown
+    # name, with no other option, in a pristine process - outcome class of the implementation against the model's electionSetupS
+    import props4
+    ctor_hist = [[[{'rule': r}, []]] for r in gen.RULES] + [[[{'rule': 'nope'}, []]]]
+    cimpl = props4.fresh_map('session_item', ctor_hist)
+    cmodel = common.run_driver_parallel(['SESSION ' + ' ;; '.join(' '.join('%s=%s' % (hx(k), ov(v)) for k, v in c.items()) + ' | ' + ' '.join(hx(t) for t in f)
+                                                                   for c, f in h) for h in ctor_hist])
+    for h, a, b in zip(ctor_hist, cimpl, cmodel):
+        rname = h[0][0]['rule']
+        oa, ob = a.split(' G:')[0].split(' F:')[0], b.split(' G:')[0].split(' F:')[0]
+        stats['constructor:%s:%s' % (rname, oa)] += 1
+        if rname in gen.RULES and oa != 'OK':
+            nfail += 1
+            run.violation(dict(kind='implementation', what='rule %s: the election constructor fails on a profile without options: %s' % (rname, oa), rule=rname))
+        elif oa != ob:
+            ncorr += 1; firstc = firstc or ('constructor rule=%s' % rname, a, b)
     if ncorr and not nfail:
         run.violation(dict(kind='correspondence', broken=['correspondence PARSE (lean/DroopModel/Blt.lean vs droop/profile.py)'],
                            text=firstc[0], implementation=firstc[1][:800], model=firstc[2][:800], disagreeing_cases=ncorr), 'no-failing-input-found')
